@@ -84,7 +84,7 @@ AbortChildren(r) == [r EXCEPT !.ch = [u \in Ch |-> IF r.ch[u] = "run" THEN "canc
 (* what finally leaves the block once nothing is pending (Appendix A, X4) *)
 Outcome(r) ==
   LET groupC == \/ (r.exc = "C" /\ ~r.intc /\ ChildErrs(r) = {})  \* the group re-raises the body's cancellation
-                \/ (r.pendC /\ ~r.lostC)
+                \/ (r.pendC /\ ~r.lostC /\ Bug # "swallow_exit_cancel")
   IN IF groupC \/ r.dC THEN "C"
      ELSE IF XFailed(r) # {} /\ Bug # "single_cleanup_error_vanishes" THEN ErrName("exit", XFailed(r))
      ELSE IF XFailed(r) # {} /\ Cardinality(XFailed(r)) > 1 THEN ErrName("exit", XFailed(r))
@@ -177,9 +177,7 @@ Cancel ==
                             !.dex = [i \in D |-> IF x.dex[i] = "exiting" THEN "cancelled" ELSE x.dex[i]]])
        [] OTHER ->   \* waiting for spawned tasks: they are aborted; if the group was already aborting
                      \* because one of them failed, asyncio's TaskGroup absorbs the request (stdlib corner)
-            IF Bug = "swallow_exit_cancel"
-              THEN Step(AbortChildren([r0 EXCEPT !.pendC = TRUE, !.lostC = TRUE]))
-              ELSE Step(AbortChildren([r0 EXCEPT !.pendC = TRUE, !.lostC = (ChildErrs(x) # {})]))
+            Step(AbortChildren([r0 EXCEPT !.pendC = TRUE, !.lostC = (ChildErrs(x) # {})]))
 
 Next == \/ Enter \/ Cancel
         \/ \E o \in {"return", "E", "BaseE"} : Leave(o)
